@@ -25,7 +25,7 @@ LEVELS = {
 }
 WITNESSES = ['internal_before_external', 'delayed_not_yet_due', 'due_exactly_now', 'fifo_tie',
              'unmatched_consumed_alone', 'eventless_step_consumes_nothing', 'all_drained',
-             'delayed_internal_pending', 'inductive_step']
+             'delayed_internal_pending', 'inductive_step', 'queued_before_first_execution']
 STUBS = ['interpreter clock: SimulatedClock advanced only by assignment (never started)',
          'action code: send(name, tag=T(), delay=D()) with D() a fresh symbolic real >= 0']
 ASSUMPTIONS = ['delays >= 0, advances >= 0, exact reals', 'events queued from one thread (C20 covers threads)',
@@ -169,7 +169,13 @@ def harness(g, job, level, canary=False):
         return d
     cur = {'sent': [], 'delays': []}
     it = Interpreter(make_chart(kind), initial_context={'T': T, 'D': D})
-    it.execute_once()
+    # the client may queue events and move the clock before the very first execution (which initialises the
+    # chart and consumes nothing); the interpreter's time is then still its initial value
+    state = {'inited': not g.choice('late_init', 2)}
+    if state['inited']:
+        it.execute_once()
+    else:
+        g.witness('queued_before_first_execution')
     ops = []
 
     def info():
@@ -180,6 +186,11 @@ def harness(g, job, level, canary=False):
         cur['sent'], cur['delays'] = [], []
         now = it.clock.time
         st = it.execute_once()
+        if not state['inited']:
+            state['inited'] = True
+            g.prove(st is not None and st.event is None and not st.transitions and not st.sent_events,
+                    'first_execution_only_initialises', info)
+            return st
         ev = None if st is None else st.event
         fired = [] if st is None else st.transitions
         eventless_fired = any(t.event is None for t in fired)
